@@ -113,8 +113,8 @@ func main() {
 			"the sequence of the sequential generator is compared between runs, not against a fixed 1..N (1..N is only counted)",
 			"the parallel generator refuses checkpointing by documented design; only counted",
 		},
-		Plan:        plan,
-		Run:         run,
+		Plan: plan,
+		Run:  run,
 		RaceKey: func(rep string) (string, bool) {
 			// Unsynchronised first use: GetIDGenerator reads idGeneratorInstantiated/idGenerator without the
 			// mutex; the only akita frames are GetIDGenerator itself (the generator object published that way
